@@ -7,8 +7,19 @@ from harness import common
 from harness.common import bud
 
 PROP = "C03"
-MODULES = ["CassisModel.Properties.C03", "CassisModel.Properties.C03Doc"]
+MODULES = ["CassisModel.Properties.C03", "CassisModel.Properties.C03Doc", "CassisModel.Properties.C03DocJson", "CassisModel.Properties.C03DocWrite"]
 THEOREMS = [
+    "Cassis.Json.loadJson_convIs",
+    "Cassis.Json.written_offset_is_utf16",
+    "Cassis.Json.json_offset_roundtrip",
+    "Cassis.Json.parseFs_restores",
+    "Cassis.Json.saveJson_annotation_offsets",
+    "Cassis.Json.saveJson_nonannotation_plain",
+    "Cassis.Xmi.saveXmi_annotation_offsets",
+    "Cassis.Xmi.saveXmi_nonannotation_plain",
+    "Cassis.Xmi.loadXmi_nonannotation_plain",
+    "Cassis.OffsetsDoc.convIs_history",
+    "Cassis.OffsetsDoc.writer_formula_is_oracle",
     "Cassis.Offsets.p2e_eq_utf16_len",
     "Cassis.Offsets.p2e_strictMono",
     "Cassis.Offsets.p2e_id_of_bmp",
